@@ -72,6 +72,55 @@ def _stored_names(stmts):
     return names
 
 
+_MUTATORS = {'append', 'extend', 'insert', 'add', 'update', 'pop', 'remove', 'clear', 'setdefault',
+             'discard', 'sort', 'reverse', 'popitem', 'appendleft', 'popleft'}
+
+
+def _mutated_in_place(stmts):
+    """Names whose OBJECT is changed in place by the statements: `n[...] = v`,
+    `n.attr = v`, `del n[...]`, `n.append(...)` and the like, augmented
+    assignment to a subscript / attribute."""
+    names = set()
+
+    def base(node):
+        while isinstance(node, (ast.Subscript, ast.Attribute)):
+            node = node.value
+        return node.id if isinstance(node, ast.Name) else None
+
+    class V(ast.NodeVisitor):
+        def visit_Subscript(self, node):
+            if isinstance(node.ctx, (ast.Store, ast.Del)):
+                b = base(node)
+                if b:
+                    names.add(b)
+            self.generic_visit(node)
+
+        def visit_Attribute(self, node):
+            if isinstance(node.ctx, (ast.Store, ast.Del)):
+                b = base(node)
+                if b:
+                    names.add(b)
+            self.generic_visit(node)
+
+        def visit_Call(self, node):
+            f = node.func
+            if isinstance(f, ast.Attribute) and f.attr in _MUTATORS:
+                b = base(f.value)
+                if b:
+                    names.add(b)
+            self.generic_visit(node)
+
+        def visit_FunctionDef(self, node):
+            pass
+
+        def visit_Lambda(self, node):
+            pass
+    v = V()
+    for st in stmts:
+        v.visit(st)
+    return names
+
+
 def _check_body(stmts, fname, k):
     """Refuse `yield` in a cut loop.  `break` and `return` are ordinary exits of
     the single unrolled iteration; a top-level `continue` is a back edge."""
@@ -130,6 +179,7 @@ class _Cutter(ast.NodeTransformer):
         self.loops = loops          # ordinal -> declared names (set)
         self.ordinal = -1
         self.cut = dict()           # ordinal -> stored names (sorted)
+        self.inplace = dict()       # ordinal -> names of objects mutated in place (not re-bound in the body)
         self.in_nested = 0
 
     def _havoc_assign(self, k, names):
@@ -151,6 +201,7 @@ class _Cutter(ast.NodeTransformer):
         _check_body(node.body, self.fname, k)
         names = sorted(_stored_names(node.body))
         self.cut[k] = names
+        self.inplace[k] = sorted(_mutated_in_place(node.body) - set(names))
         body = [_ContinueToBack(k).visit(b) for b in node.body]
         # one unrolled iteration inside `while True` so that a `break` of the
         # original loop leaves it; every other path ends in back() (EndOfPath)
@@ -174,6 +225,7 @@ class _Cutter(ast.NodeTransformer):
         _check_body(node.body, self.fname, k)
         names = sorted(_stored_names(node.body) | _stored_names([node.target]))
         self.cut[k] = names
+        self.inplace[k] = sorted(_mutated_in_place(node.body) - set(names))
         it_call = _call('for_entry', k)
         it_call.args.append(node.iter)
         body = [_ContinueToBack(k).visit(b) for b in node.body]
@@ -368,6 +420,7 @@ def extract(func, loops=None, overrides=None, vc=None, module_overrides=None):
         function=f'{func.__module__}.{func.__qualname__}',
         source_lines=len(src.splitlines()),
         cut={k: v for k, v in cutter.cut.items()},
+        inplace={k: v for k, v in cutter.inplace.items()},
         n_loops=cutter.ordinal + 1,
         renamed=renamed,
         dropped=('back edges of loops ' + str(sorted(cutter.cut)) if cutter.cut
@@ -446,6 +499,11 @@ class LoopVC:
     def havoc(self, k, L):
         spec = self.specs[k]
         names = spec['names']
+        for n in spec.get('inplace', ()):
+            if n not in spec.get('mutated', {}) and n not in spec['vars'] and n not in spec.get('mutated_ok', ()):
+                raise Unsupported(
+                    f'{self.fname}: the object `{n}` is changed in place inside cut loop {k} '
+                    'but the sidecar does not say how (its state at an arbitrary iteration is unknown)')
         for n in spec['vars']:
             if n not in names and n not in L:
                 raise Unsupported(
